@@ -75,8 +75,10 @@ def payload_flow(chk, cls):
                     flat.extend(a.values)
                 elif isinstance(a, ast.Call):
                     flat.append(a)
-                    flat.extend(a.args)
-                    flat.extend(k.value for k in a.keywords)
+                    for x in list(a.args) + [k.value for k in a.keywords]:
+                        flat.append(x)
+                        if isinstance(x, (ast.Tuple, ast.List)):
+                            flat.extend(x.elts)  # args=tuple((payload,))
                 else:
                     flat.append(a)
             if not any(isinstance(a, ast.Name) and a.id == pname for a in flat):
@@ -134,8 +136,11 @@ def payload_flow(chk, cls):
                             elif prim == "ext:threading.Thread":
                                 handed = []
                                 for k in c.keywords:
-                                    if k.arg == "args" and isinstance(k.value, (ast.Tuple, ast.List)):
-                                        handed = list(k.value.elts)
+                                    kv = k.value
+                                    if k.arg == "args" and isinstance(kv, ast.Call) and util.dotted(kv.func) in ("tuple", "list") and len(kv.args) == 1 and not kv.keywords:
+                                        kv = kv.args[0]  # args=tuple((payload,))
+                                    if k.arg == "args" and isinstance(kv, (ast.Tuple, ast.List)):
+                                        handed = list(kv.elts)
                                     if k.arg == "kwargs" and isinstance(k.value, ast.Dict):
                                         handed_kw.update({kk.value: vv for kk, vv in zip(k.value.keys, k.value.values) if isinstance(kk, ast.Constant)})
                                     if k.arg == "kwargs" and isinstance(k.value, ast.Call) and util.dotted(k.value.func) == "dict":
@@ -148,6 +153,11 @@ def payload_flow(chk, cls):
                             for i, h in enumerate(handed):
                                 if isinstance(h, ast.Name) and h.id == pname and i < len(m.params()):
                                     todo.append((m, m.params()[i], sk2))
+                                elif isinstance(h, ast.Name) and h.id == pname and m.node.args.vararg is not None:
+                                    # collected by *payloads: it re-appears as the variable of the loops over that name
+                                    for lp in ast.walk(m.node):
+                                        if isinstance(lp, (ast.For, ast.AsyncFor)) and isinstance(lp.iter, ast.Name) and lp.iter.id == m.node.args.vararg.arg and isinstance(lp.target, ast.Name):
+                                            todo.append((m, lp.target.id, sk2))
                                 # handed over inside a display, e.g. (payload,): it re-appears as the variable of the
                                 # loops over that parameter
                                 if isinstance(h, (ast.Tuple, ast.List, ast.Set)) and any(isinstance(x, ast.Name) and x.id == pname for x in h.elts) and i < len(m.params()):
@@ -618,23 +628,43 @@ def meta_chain(chk):
     rule = "O1.7"
     acc = prog.method(SERVICE_RUNNER, "accept")
     ok = True
-    for label in ("AnyException", "OtherBase"):
-        e = REPRESENTATIVES[label]
+    inject = {k: REPRESENTATIVES[k] for k in ("AnyException", "OtherBase")}
+    # one representative per class an except clause of accept names (RuntimeError is what MetaRunner.run raises for a
+    # failed payload): such a handler must not swallow it, rewrite it, or run the runtime again
+    for h in ast.walk(acc.node):
+        if isinstance(h, ast.ExceptHandler) and h.type is not None:
+            for ty in h.type.elts if isinstance(h.type, ast.Tuple) else [h.type]:
+                q = prog.resolve(acc.module, ty)
+                if q and libfacts.is_exception_class(q, prog) and q not in ("ext:builtins.BaseException", "ext:builtins.Exception"):
+                    inject["%s (named by a handler in accept)" % q.split(":")[-1].replace("builtins.", "")] = exc_value(libfacts.canon_exc(q), "injected")
+    for label, e in inject.items():
 
         def hook(it, path, ct, node, e=e):
             if ct[0] == "call" and ct[1][0] == "attr" and ct[1][2] == "run" and ct[1][1] == ("attr", SELF, slots.service_meta(prog)):
                 return [("raise", e)]
             return None
 
-        outs = Interp(prog, acc, call_hook=hook).run()
+        outs = Interp(prog, acc, call_hook=hook, unroll=2).run()
         hit = False
         for o in outs:
             chk.count()
-            if any(ev[0] == "raised-at-call" for ev in o.path.events):
+            raised = [ev for ev in o.path.events if ev[0] == "raised-at-call"]
+            if raised:
                 hit = True
                 if o.kind != "raise" or o.value != e:
                     chk.bad(rule, acc.qual, "a failure raised by the meta runner does not leave accept() unchanged", node=acc.node, stmt="accept-swallows", input=label)
                     ok = False
+                elif len(raised) > 1:
+                    chk.bad(
+                        rule,
+                        acc.qual,
+                        "after the meta runner's run() has failed (%s), accept() runs it AGAIN (%d runs on one path): the failure of a background payload is swallowed, the restarted runtime has lost its payloads and accept() keeps blocking" % (label, len(raised)),
+                        node=acc.node,
+                        stmt="accept-reruns",
+                        input=label,
+                    )
+                    ok = False
+                    break
         if not hit:
             chk.bad(rule, acc.qual, "accept() does not run the meta runner", node=acc.node, stmt="accept-no-run")
             ok = False
